@@ -1,33 +1,40 @@
+#!/usr/bin/env python3
+"""Development helper: confirm sub-agent mutants in their scratch worktree and store them under /verif/seeded.
+usage: import_seeded.py <worktree> <property> <tag> <round> [<first index>]
+   <worktree> holds mutant{k}.patch + demo{k}.py (k = 1, 2)."""
 import json, os, re, subprocess, shutil, sys
-src=sys.argv[1]; tag=sys.argv[2]; rnd=int(sys.argv[3])
-for pid in sorted(os.listdir(src)):
-    d=os.path.join(src,pid)
-    for k in (1,2):
-        p='%s/mutant%d.patch'%(d,k); demo='%s/demo%d.py'%(d,k)
-        name='%s-%sm%d'%(pid,tag,k)
-        if not os.path.isfile(p) or os.path.isdir('/verif/seeded/'+name): continue
-        env=dict(os.environ,PYTHONPATH=d)
-        def clean():
-            subprocess.run(['git','checkout','-q','--','praatio'],cwd=d); subprocess.run(['git','clean','-qfd','praatio'],cwd=d)
-        clean()
-        r=subprocess.run(['git','apply',p],cwd=d,capture_output=True,text=True)
-        if r.returncode: print(name,'APPLY-FAILED'); continue
-        t=subprocess.run(['/venv/bin/python','-m','pytest','-q','-p','no:cacheprovider'],cwd=d,env=env,capture_output=True,text=True).stdout.strip().splitlines()[-1]
-        w=subprocess.run(['/venv/bin/python',demo],cwd=d,env=env,capture_output=True,text=True,timeout=900).returncode
-        clean()
-        wo=subprocess.run(['/venv/bin/python',demo],cwd=d,env=env,capture_output=True,text=True,timeout=900).returncode
-        ok='367 passed' in t and w!=0 and wo==0
-        print(name,'tests=[%s] demo_with=%d demo_without=%d %s'%(t,w,wo,'CONFIRMED' if ok else 'REJECTED'),flush=True)
-        if not ok: continue
-        dst='/verif/seeded/'+name; os.makedirs(dst)
-        shutil.copy(p,dst+'/patch.diff'); shutil.copy(demo,dst+'/demo.py')
-        txt=open(p).read()
-        files=re.findall(r'^\+\+\+ b/(\S+)',txt,re.M)
-        ctx=sorted(set(x.strip() for x in re.findall(r'^@@.*@@ (.*)$',txt,re.M)))
-        doc=open(demo).read()
-        m=re.match(r'\s*(?:#!.*\n)?\s*(?:"""|\'\'\')(.*?)(?:"""|\'\'\')',doc,re.S)
-        meta={"id":name,"property":pid,"round":rnd,"origin":"independent sub-agent (round %d) given only the property text and a scratch worktree of /repo (HEAD 8c875e6)"%rnd,
-          "changed":", ".join(files),"edit":"; ".join(ctx)[:300],"needs_to_manifest":" ".join((m.group(1) if m else "").split())[:400],
-          "confirmed":{"how":"in the scratch worktree %s: git apply patch.diff; pytest; python demo.py; git checkout -- praatio; python demo.py"%d,
-             "tests_with_change":t,"demo_with_change":"exit %d"%w,"demo_without_change":"exit %d"%wo}}
-        json.dump(meta,open(dst+'/meta.json','w'),indent=1)
+d, pid, tag, rnd = sys.argv[1], sys.argv[2], sys.argv[3], int(sys.argv[4])
+first = int(sys.argv[5]) if len(sys.argv) > 5 else 1
+head = subprocess.run(['git', 'rev-parse', '--short', 'HEAD'], cwd=d, capture_output=True, text=True).stdout.strip()
+for k in (1, 2, 3):
+    p = '%s/mutant%d.patch' % (d, k); demo = '%s/demo%d.py' % (d, k)
+    name = '%s-%sm%d' % (pid, tag, first + k - 1)
+    if not os.path.isfile(p) or os.path.isdir('/verif/seeded/' + name):
+        continue
+    env = dict(os.environ, PYTHONPATH=d)
+    def clean():
+        subprocess.run(['git', 'checkout', '-q', '--', 'praatio'], cwd=d); subprocess.run(['git', 'clean', '-qfd', 'praatio'], cwd=d)
+    clean()
+    r = subprocess.run(['git', 'apply', p], cwd=d, capture_output=True, text=True)
+    if r.returncode:
+        print(name, 'APPLY-FAILED'); continue
+    t = subprocess.run(['/venv/bin/python', '-m', 'pytest', '-q', '-p', 'no:cacheprovider'], cwd=d, env=env, capture_output=True, text=True).stdout.strip().splitlines()[-1]
+    w = subprocess.run(['/venv/bin/python', demo], cwd=d, env=env, capture_output=True, text=True, timeout=900).returncode
+    clean()
+    wo = subprocess.run(['/venv/bin/python', demo], cwd=d, env=env, capture_output=True, text=True, timeout=900).returncode
+    ok = '367 passed' in t and w != 0 and wo == 0
+    print(name, 'tests=[%s] demo_with=%d demo_without=%d %s' % (t, w, wo, 'CONFIRMED' if ok else 'REJECTED'), flush=True)
+    if not ok:
+        continue
+    dst = '/verif/seeded/' + name; os.makedirs(dst)
+    shutil.copy(p, dst + '/patch.diff'); shutil.copy(demo, dst + '/demo.py')
+    txt = open(p).read()
+    files = re.findall(r'^\+\+\+ b/(\S+)', txt, re.M)
+    ctx = sorted(set(x.strip() for x in re.findall(r'^@@.*@@ (.*)$', txt, re.M)))
+    doc = open(demo).read()
+    m = re.match(r'\s*(?:#!.*\n)?\s*(?:"""|\'\'\')(.*?)(?:"""|\'\'\')', doc, re.S)
+    meta = {"id": name, "property": pid, "round": rnd, "origin": "independent sub-agent (round %d) given only the property text and a scratch worktree of /repo (HEAD %s)" % (rnd, head),
+            "changed": ", ".join(files), "edit": "; ".join(ctx)[:300], "needs_to_manifest": " ".join((m.group(1) if m else "").split())[:400],
+            "confirmed": {"how": "in the scratch worktree %s: git apply patch.diff; pytest; python demo.py; git checkout -- praatio; python demo.py" % d,
+                          "tests_with_change": t, "demo_with_change": "exit %d" % w, "demo_without_change": "exit %d" % wo}}
+    json.dump(meta, open(dst + '/meta.json', 'w'), indent=1)
